@@ -28,11 +28,20 @@ Fixpoint read_ident (s : str) : str * str :=
   | [] => ([], [])
   end.
 
+(* Go's string(ch) for a byte: the UTF-8 encoding of the code point U+00ch *)
+Definition rune_str (c : byte) : str :=
+  let n := b2n c in
+  if N.ltb n 128 then [c]
+  else match Byte.of_N (192 + n / 64), Byte.of_N (128 + n mod 64) with
+       | Some a, Some b => [a; b]
+       | _, _ => [c]
+       end.
+
 Definition next_token (s0 : str) : token * str :=
   match skip_ws s0 with
   | [] => ({| ty := EOF; lit := [] |}, [])
   | c :: t =>
-      let one ty' := ({| ty := ty'; lit := [c] |}, t) in
+      let one ty' := ({| ty := ty'; lit := rune_str c |}, t) in
       match assoc_N (b2n c) single_char with
       | Some ty' => one ty'
       | None =>
